@@ -305,8 +305,13 @@ pub fn run(seed: u64, steps: usize, limit: usize) -> Outcome {
                     }
                 };
                 trace.push(format!("n{} = new_substr(n{p}, {s}, {e})", m.nodes.len()));
+                // a slice of an INLINE parent that is not itself a minimal small integer is materialised on the heap (known
+                // finding F1 for the C12 accounting); since the fix: commit it is subject to the heap limit like new_atom
+                let parent_inline0 = a.small_number(m.nodes[p].real).is_some() && a.node(m.nodes[p].real).is_u32();
+                let materialised = parent_inline0 && s <= e && e <= len && minimal_small(&pb[s as usize..e as usize]).is_none();
+                let oom = materialised && before.atoms != MAX_ATOMS && before.heap + (e - s) as usize > m.limit;
                 let res = a.new_substr(m.nodes[p].real, s, e);
-                let bad = before.atoms == MAX_ATOMS || s > len || e > len || e < s;
+                let bad = before.atoms == MAX_ATOMS || s > len || e > len || e < s || oom;
                 match res {
                     Ok(n) => {
                         if bad {
@@ -494,7 +499,7 @@ pub fn run(seed: u64, steps: usize, limit: usize) -> Outcome {
         if rc.atoms > MAX_ATOMS || rc.pairs > MAX_PAIRS {
             fail!("step {step}: count cap exceeded: {:?}", rc);
         }
-        if rc.heap > m.limit.max(1) && !m.f1_seen {
+        if rc.heap > m.limit.max(1) {
             fail!("step {step}: heap_size {} exceeds heap_limit {}", rc.heap, m.limit);
         }
         if step % 4 == 0 {
